@@ -145,7 +145,10 @@ theorem recv_open (s : Server) (d tok : Nat) (y : Conn) (hy : s.conns[d]? = some
   unfold recv recvN at h
   simp only [hy] at h
   cases hk : y.kind <;> simp only [hk] at h
-  · simp [ho] at h; exact h.symm
+  · simp [ho] at h
+    split at h
+    · cases h
+    · cases h; rfl
   · split at h
     · cases h
     · simp [ho] at h
@@ -170,7 +173,7 @@ theorem recv_open_noloop (s : Server) (d tok : Nat) (y : Conn) (hy : s.conns[d]?
   unfold recv recvN
   simp only [hy]
   cases hk : y.kind
-  · simp [ho]
+  · simp [ho]; split <;> simp
   · simp only []
     split
     · simp
